@@ -244,10 +244,17 @@ func (its *PushPullHandler) reserveUpdateSnapshot(ctx iface.OrdaContext) error {
 }
 
 func (its *PushPullHandler) commitToMongoDB() errors.OrdaError {
+	previousEnd := its.datatypeDoc.Sseq.End
 	its.datatypeDoc.Sseq.End = its.currentCP.Sseq
 	its.resPushPullPack.CheckPoint = its.currentCP
 	its.subClientDoc.UpdateAt()
 	if len(its.pushingOperations) > 0 {
+		// A commit is two writes (operations, then the datatype document). If an earlier commit failed between
+		// them it left operation documents beyond the recorded end of the log, under the very ids this commit is
+		// about to use: nobody was told about them, remove them first.
+		if err := its.managers.Mongo.DeleteOperationsAfter(its.ctx, its.DUID, previousEnd); err != nil {
+			return errors.PushPullAbortionOfServer.New(its.ctx.L(), err.Error())
+		}
 		if err := its.managers.Mongo.InsertOperations(its.ctx, its.pushingOperations); err != nil {
 			return errors.PushPullAbortionOfServer.New(its.ctx.L(), err.Error())
 		}
@@ -277,6 +284,10 @@ func (its *PushPullHandler) pullOperations() errors.OrdaError {
 		opList, sseqList, err := its.managers.Mongo.GetOperations(its.ctx, its.DUID, sseqBegin, constants.InfinitySseq)
 		if err != nil {
 			return errors.PushPullAbortionOfServer.New(its.ctx.L(), err.Error())
+		}
+		// documents beyond the recorded end of the log are leftovers of a failed commit, never acknowledged
+		for len(sseqList) > 0 && sseqList[len(sseqList)-1] > its.datatypeDoc.Sseq.End {
+			opList, sseqList = opList[:len(opList)-1], sseqList[:len(sseqList)-1]
 		}
 		if len(opList) > 0 {
 			its.currentCP.Sseq = sseqList[len(sseqList)-1] + (uint64)(len(its.pushingOperations))
